@@ -50,12 +50,14 @@ CLAIMED = {
              design="DESIGN.md 3/U3 U4 K-ledger, 4/C03", technique="Verus postconditions on extracted conversions + Kani loop-free harnesses on the real crate"),
  "C09": dict(text="Verus, part of the property: on the real OsIpcSender::send every transmission failure that is not a recoverable ENOBUFS is returned as Err (ghost attempt log), a failed send leaves at most one packet on the shared socket, and the retry loop terminates for every error pattern. That the kernel reports EPIPE/ECONNRESET and raises no SIGPIPE is assumed.",
              design="DESIGN.md 3/U2, 4/C09", technique="Verus postconditions over a ghost transmission log"),
+ "C20": dict(text="Part of the property (the library's own glue, not futures' channels or the scheduler), Verus on the real text of src/asynch.rs: (1) the routing thread's closure body, verified as a function with ghost logs - every MessageReceived(id, m) the receiver set reports for a registered channel is passed exactly once, in report order, to the futures sender that was queued together with that receiver and to no other (forwarded == fwd(delivered), an invariant of all three loops); every live member has its sender, a sender is dropped exactly on ChannelClosed(id) (so the stream ends after its last message) and none outlives its channel; after every select batch every queued route has been taken and registered before the next select; (2) IpcReceiver::to_stream queues (receiver, fresh channel's sender) and only then wakes the thread, and returns the stream reading that same channel; (3) IpcStream::poll_next polls the forwarding channel exactly once with the caller's context and yields exactly what it yields (Pending/End/message decoded). Assumed: futures mpsc (FIFO, lossless, wakes the registered task, ends when senders are gone), the receiver set (C06/U5), epoll registration of the wake-up receiver succeeds, thread scheduling.",
+             design="DESIGN.md 3/U11, 4/C20", technique="Verus loop invariants over ghost delivery/forwarding logs on the mechanically extracted closure body and methods",
+             note="Trusted: IpcReceiverSet / futures mpsc / Mutex / wake-up sender stand-ins listed in the evidence; the closure body and poll_next are verified under a unit-supplied signature (BlockFn: the text between the braces is copied verbatim); termination of the service loop is not claimed."),
 }
 
 NOT_APPLICABLE = {
  "C08": "rendezvous through the filesystem, kernel listen queue, tempfile's RNG and TempDir's Drop: straight-line FFI with nothing a function contract can state; Verus does not see Drop",
  "C19": "differential property over three builds and arbitrary programs; no per-function contract expresses it",
- "C20": "feature-gated async glue over futures channels and a lazily spawned thread: wake-ups and schedules only",
 }
 PENDING = {}
 
